@@ -223,6 +223,12 @@ def oracle_part(ctx):
         for mi, (mname, A) in enumerate(mats):
             if ctx.thorough or ctx.search or (mi + 2 * bi) % 4 == 0:
                 sel.append((bname, f, mname, A))
+    # block-storage and complex problems are always in (their kernels are separate code)
+    for bname, f, _ in bl:
+        if bname in ('sa', 'rootnode'):
+            for mname, A in mats:
+                if (getattr(A, 'format', '') == 'bsr' or np.iscomplexobj(A.data)) and not any(e[0] == bname and e[2] == mname for e in sel):
+                    sel.append((bname, f, mname, A))
     an, af, _ = hier.air_builder()
     sel.append((an, af, 'upwind-5x5', hier.nonsym_matrix(5)))
     # classical hierarchies that keep their C/F splittings (for the coarse/fine-ordered smoothers), several levels deep
@@ -246,6 +252,15 @@ def oracle_part(ctx):
     for ent in [e for e in multi if e[0] in ('rs-keep', 'air')][:3]:
         plan.append(ent + ((('cf_jacobi', {'omega': 0.7}), ('fc_jacobi', {'omega': 0.6, 'f_iterations': 2})),))
         plan.append(ent + ((('fc_jacobi', {'omega': 0.8}), ('none', {})),))
+    # complex hierarchies with the normal-equation smoothers (conjugations must sit on the right factor: the cycle is
+    # linear over the complex numbers), and block-storage (BSR) hierarchies with the point smoothers that have their
+    # own BSR kernels
+    for ent in [e for e in multi if np.iscomplexobj(e[3].data)][:2]:
+        plan.append(ent + ((('gauss_seidel_nr', {'sweep': 'forward'}), ('gauss_seidel_ne', {'sweep': 'backward'})),))
+        plan.append(ent + ((('jacobi_ne', {}), ('gauss_seidel_nr', {'sweep': 'symmetric'})),))
+    for ent in [e for e in multi if getattr(e[3], 'format', '') == 'bsr' and e[0] in ('sa', 'rootnode', 'sa-energy')][:2]:
+        plan.append(ent + ((('jacobi', {'omega': 0.8}), ('gauss_seidel', {'sweep': 'forward'})),))
+        plan.append(ent + ((('sor', {'omega': 1.2, 'sweep': 'symmetric'}), ('jacobi', {'omega': 0.6, 'iterations': 2})),))
     for idx, (bname, f, mname, A, forced) in enumerate(plan):
         np.random.seed(ctx.seed)
         try:
@@ -286,6 +301,9 @@ def oracle_part(ctx):
             # stationary: the probed map must reproduce the smoother on a random (x, b)
             xr = np.array([rng.uniform(-1, 1) for _ in range(n)]).astype(dt)
             br = np.array([rng.uniform(-1, 1) for _ in range(n)]).astype(dt)
+            if np.issubdtype(dt, np.complexfloating):
+                xr = xr + 1j * np.array([rng.uniform(-1, 1) for _ in range(n)])
+                br = br + 1j * np.array([rng.uniform(-1, 1) for _ in range(n)])
             xs = xr.copy()
             L.presmoother(L.A, xs, br)
             if _nn(np.linalg.norm(xs - (xr + d['Bpre'] @ (br - Ad @ xr)))) > 1e-9 * (1 + np.linalg.norm(xs)):
@@ -314,6 +332,9 @@ def oracle_part(ctx):
             M = reference_M(levels, Ainv, cname, cpl) if nlev > 1 else Ainv
             x0 = np.array([rng.uniform(-1, 1) for _ in range(n0)]).astype(dt)
             b = np.array([rng.uniform(-1, 1) for _ in range(n0)]).astype(dt)
+            if np.issubdtype(dt, np.complexfloating):
+                x0 = x0 + 1j * np.array([rng.uniform(-1, 1) for _ in range(n0)])
+                b = b + 1j * np.array([rng.uniform(-1, 1) for _ in range(n0)])
             cs = dict(case, cycle=cname, cpl=cpl)
             ctx.case(('built', bname, mname, cname, cpl, pre[0], post[0], coarse), nlev > 1)
             ctx.count('built:' + bname)
@@ -387,11 +408,45 @@ def oracle_part(ctx):
                 ctx.count('near-solution-guess')
 
 
+def transient(ctx):
+    """one k-cycle call == k one-cycle calls also when the residual 2-norm goes UP in a cycle (a convergent cycle may
+    trade a smooth error with a tiny residual for a smaller, rougher one): the loop has no business looking at trends"""
+    import warnings
+    import pyamg
+    from pyamg.gallery import poisson
+    A = poisson((300,), format='csr')      # 1-D: the smoothest mode has a residual ~1e-4 of its size
+    n = A.shape[0]
+    w, V = np.linalg.eigh(A.toarray())
+    for omega, k in ((1.0, 4), (4.0 / 3.0, 3)):
+        sm = ('jacobi', {'omega': omega})
+        np.random.seed(ctx.seed)
+        with warnings.catch_warnings():
+            warnings.simplefilter('ignore')
+            ml = pyamg.smoothed_aggregation_solver(A, max_coarse=10, presmoother=sm, postsmoother=sm)
+        xs = np.random.default_rng(ctx.seed).standard_normal(n)
+        b = A @ xs
+        x0 = xs + V[:, 0]
+        for cyc in ('V', 'W', 'F'):
+            case = dict(transient=True, omega=omega, k=k, cycle=cyc)
+            ctx.mark(case)
+            res = []
+            xk = ml.solve(b, x0=x0, maxiter=k, tol=1e-300, cycle=cyc, residuals=res)
+            y = x0.copy()
+            for _ in range(k):
+                y = ml.solve(b, x0=y, maxiter=1, tol=1e-300, cycle=cyc)
+            ctx.case(('transient', omega, k, cyc), True)
+            ctx.count('transient:' + ('rise' if any(res[i + 1] > res[i] for i in range(len(res) - 1)) else 'monotone'))
+            if len(res) - 1 != k or _nn(np.linalg.norm(xk - y)) > 1e-10 * (1 + np.linalg.norm(y - xs)):
+                ctx.fail('cycle/%s/k-cycles-vs-k-calls' % cyc, 'one %d-cycle call performed %d cycle(s) and differs from %d one-cycle calls by %.3g (residual history %s)'
+                         % (k, len(res) - 1, k, np.linalg.norm(xk - y), ['%.2e' % r for r in res]), case)
+
+
 def run(ctx):
     ctx.corr_relations = ['MultilevelSolver.solve(b, x0, maxiter=k, cycle, cycles_per_level) == repeat_fn k (Cycle.cycle h ct cpl . b) x0 on Q (exact)',
                           'MultilevelSolver.aspreconditioner(cycle) @ v == Cycle.Mtb h ct 1 v == cycle from zero (exact)']
     exact_part(ctx)
     oracle_part(ctx)
+    transient(ctx)
 
 
 def search(ctx):
